@@ -213,7 +213,9 @@ def commit(bk, st):
     if k == 'setwin' and pr is not None and ret and ret.get('how') == 'none':
         pr['window'] = int(op[2])
     if k == 'settimeout' and pr is not None and ret and ret.get('how') == 'none':
-        pr['initialT'] = int(op[2])
+        from fractions import Fraction
+        v = Fraction(op[2])
+        pr['initialT'] = int(v) if v.denominator == 1 else float(v)        # setTimeout() takes any number in range, not only integers
     if k == 'setbw' and pr is not None and ret and ret.get('how') == 'none':
         from fractions import Fraction
         try:
@@ -385,6 +387,8 @@ class C04(Monitor):
             ka = int(op[3]); ver = op[4]
             rest = op[6:] + ['n', 'n', '0', '0', 'n', 'n'][len(op[6:]):]
             wt, wm, wq, wr, user, pw = rest[:6]
+            if op[2][:2] != 's:' or any(x != 'n' and x[:2] != 's:' for x in (wt, wm, user, pw)):
+                return False          # a value of a type other than str where text is expected
             cid = unhex(op[2][2:]).decode('utf-8')
             if not (0 <= int(wq) < 3) or not (0 <= ka <= 65535) or ver not in ('31', '311'):
                 return False
@@ -1160,6 +1164,19 @@ class C14(Monitor):
                 others = [e for e in st.ev if e is not r]
                 if not good or others or st.timers != st.pre_timers or st.states != st.pre_states:
                     self.flag('op-not-refused', '%s() in state %s of profile %d: %s, other effects %s' % (op[0], st.pre_state, bk.profile, r, [e['k'] for e in others]), st)
+        if op[0] == 'connect' and st.pre_state is not None:
+            # a connect() that was not accepted (it raised, or returned a failed Deferred) is not a transition: the protocol is in the state it was in
+            r = ret_of(st)
+            if r is not None and r.get('how') != 'pending' and st.states != st.pre_states:
+                self.flag('refused-connect-moved', 'connect() was not accepted (%s) yet the protocol states went from %s to %s' % (r.get('err') or r.get('how'), st.pre_states, st.states), st)
+        if op[0] == 'recv' and st.pre_state == 'G' and len(st.completed) == 1 and st.p < len(st.states):
+            # the CONNACK's return code decides where a connecting protocol goes: connected on 0, idle again on anything else
+            raw, pk = st.completed[0]
+            waiting = any(bk.dfd[d]['kind'] == 'connect' and bk.dfd[d]['p'] == st.p for d in st.pre_pending if d in bk.dfd)
+            if waiting and pk is not None and pk['type'] == 'CONNACK' and pk.get('exact') and not any(e['k'] == 'esc' for e in st.ev):
+                want = 'C' if pk['rc'] == 0 else 'I'
+                if st.states[st.p] != want:
+                    self.flag('connack-transition', 'CONNACK with return code %d left the connecting protocol in state %s (expected %s)' % (pk['rc'], st.states[st.p], want), st)
         if op[0] == 'recv' and st.pre_state is not None and len(st.completed) == 1:
             raw, pk = st.completed[0]
             if pk is not None and pk['type'] in PKT_ALLOWED and not PKT_ALLOWED[pk['type']](bk.profile, st.pre_state):
@@ -1193,6 +1210,12 @@ class C15(Monitor):
                     un = [pg for pg in q['pings'] if not pg['answered'] and pg['at'] + k <= st.now + clock_slack(st.now)]
                     if not un:
                         self.flag('abort-though-answered', 'keepalive aborted connection %d although every PINGREQ was answered in time' % e['p'], st)
+                    late = [pg for pg in q['pings'] if not pg['answered'] and pg['at'] + k + clock_slack(st.now) < st.now]
+                    first = e['p'] not in getattr(self, 'aborted_seen', set())     # (a transport that was aborted and not yet reported lost is aborted again later)
+                    self.aborted_seen = getattr(self, 'aborted_seen', set()) | {e['p']}
+                    if late and k and first:
+                        self.flag('abort-late', 'connection %d aborted %.3f s after a PINGREQ that was never answered (keepalive %d)'
+                                  % (e['p'], (st.now - late[0]['at']) / TICK, q['keepalive']), st)
 
     def finish(self):
         pass
@@ -1365,7 +1388,11 @@ class C20(Monitor):
             if k == 'setwin':
                 return 'valid' if op[2].lstrip('-').isdigit() and 1 <= int(op[2]) <= 16 else 'invalid'
             if k == 'settimeout':
-                return 'valid' if op[2].lstrip('-').isdigit() and 1 <= int(op[2]) <= 1024 else 'invalid'
+                try:
+                    from fractions import Fraction
+                    return 'valid' if 1 <= Fraction(op[2]) <= 1024 else 'invalid'
+                except (ValueError, ZeroDivisionError):
+                    return 'invalid'
             if k == 'setbw':
                 def num(x):
                     n, d = (x.split('/') + ['1'])[:2]
